@@ -95,6 +95,11 @@ pub struct RunCfg {
     /// same elements count as the same result (and the model follows the implementation's kind)
     #[serde(default)]
     pub seq_kind_tolerant: bool,
+    /// the profile's statements are small and their cost in interpreter steps is proportional to
+    /// the reference model's: an implementation that exhausts the step budget where the model
+    /// finishes is reported (alias profile)
+    #[serde(default)]
+    pub strict_termination: bool,
 }
 
 impl Default for RunCfg {
@@ -115,6 +120,7 @@ impl Default for RunCfg {
             in_err_at: None,
             in_rewind: false,
             seq_kind_tolerant: false,
+            strict_termination: false,
         }
     }
 }
@@ -749,6 +755,26 @@ fn execute_inner(
                 // otherwise "did not terminate within budget" is not a violation by itself
                 continue;
             }
+            if st.mode == Mode::Checked && script.cfg.strict_termination {
+                // the reference model finishes generated statements within a few thousand steps;
+                // an implementation that burns its whole budget (30 times that and more) on one of
+                // them does not terminate where the documented semantics do
+                let top = sess.model.top.clone();
+                sess.model.steps = 0;
+                let r = sess.model.eval(&top, &st.ex);
+                let decided = matches!(r, Ok(_) | Err(Ctl::Throw(_)) | Err(Ctl::Break(..)) | Err(Ctl::Continue(_)) | Err(Ctl::Return(_)));
+                if decided && sess.model.steps * 30 <= script.cfg.fuel {
+                    log.push(format!("{} => FUEL where the model terminates", src));
+                    return RunEnd::Violation(Violation {
+                        kind: ViolationKind::Invariant("termination".into()),
+                        stmt_index: idx,
+                        source: src,
+                        expected: format!("terminates (the reference model needs {} steps)", sess.model.steps),
+                        observed: format!("step budget of {} interpreter steps exhausted", script.cfg.fuel),
+                        detail: String::new(),
+                    });
+                }
+            }
             return RunEnd::Inconclusive("implementation ran out of fuel".into());
         }
 
@@ -893,7 +919,14 @@ fn execute_inner(
             .iter()
             .filter_map(|n| Model::lookup(&sess.model.top, n).map(|v| (n.clone(), v)))
             .collect();
+        crate::model::UNSUPPORTED_RAISED.with(|c| c.set(false));
         let model_r = sess.model.eval(&top, &st.ex);
+        // HEAD refuses some operations only because they are not implemented for a kind of value
+        // (pop on a vector, a nested write under an absent key of a defaulted dict, a whole-valued
+        // rational as an index, slice assignment without `every`, ...). No property says they must
+        // be refused: if the statement went through such a refusal in the model and the
+        // implementation disagrees, the statement is not judged and the session ends undecided.
+        let soft = crate::model::UNSUPPORTED_RAISED.with(|c| c.get());
         let model_out = match &model_r {
             Ok(v) => match sess.model_canon(&v.clone()) {
                 Ok(s) => Outcome::Value(s),
@@ -915,6 +948,9 @@ fn execute_inner(
             (Outcome::Value(a), Outcome::Value(b)) => {
                 stats.values += 1;
                 let same = if script.cfg.seq_kind_tolerant { seq_kind_tolerant_eq(a, b) } else { a == b };
+                if !same && soft {
+                    return RunEnd::Inconclusive("beyond HEAD: the model refused an operation HEAD does not implement".into());
+                }
                 if !same {
                     log.push(format!("{} => VALUE MISMATCH", src));
                     return RunEnd::Violation(Violation {
@@ -977,6 +1013,9 @@ fn execute_inner(
                 }
             }
             (Outcome::Escaped(a), Outcome::Escaped(b)) if a == b => {}
+            (Outcome::Value(_), _) | (_, Outcome::Value(_)) if soft => {
+                return RunEnd::Inconclusive("beyond HEAD: the model refused an operation HEAD does not implement".into());
+            }
             (a, b) => {
                 log.push(format!("{} => OUTCOME MISMATCH", src));
                 return RunEnd::Violation(Violation {
@@ -992,6 +1031,9 @@ fn execute_inner(
 
         let h = match compare_state(sess, idx, &src) {
             Ok(h) => h,
+            Err(RunEnd::Violation(_)) if soft && matches!(impl_out, Outcome::Value(_)) => {
+                return RunEnd::Inconclusive("beyond HEAD: the model refused an operation HEAD does not implement".into());
+            }
             Err(end) => {
                 log.push(format!("{} => STATE/OUTPUT MISMATCH", src));
                 return end;
